@@ -203,11 +203,11 @@ class RungeKuttaIntegrator(TableauIntegrator, abc.ABC):
                     self.solver_dict['redo_count'] += 1
                     try:
                         timestep, (self.dTime, self.dState) = self.step(rhs, initial_time, initial_state, constants,
-                                                                             timestep if D.ar_numpy.abs(timestep) < D.ar_numpy.abs(current_timestep) else current_timestep)
+                                                                             timestep if D.ar_numpy.abs(timestep) < D.ar_numpy.abs(self.dTime) else self.dTime)
                     except (*D.linear_algebra_exceptions, ValueError):
                         self._requires_high_precision = True
                         timestep, (self.dTime, self.dState) = self.step(rhs, initial_time, initial_state, constants,
-                                                                             timestep if D.ar_numpy.abs(timestep) < D.ar_numpy.abs(current_timestep) else current_timestep)
+                                                                             timestep if D.ar_numpy.abs(timestep) < D.ar_numpy.abs(self.dTime) else self.dTime)
                     self.solver_dict['diff'] = timestep * self.get_error_estimate()
                     self.solver_dict['timestep'] = self.dTime
                     self.solver_dict['dState'] = self.dState
